@@ -129,6 +129,15 @@ def assign_registers(data: CodeData, code: list[IC10Instruction]):
             if symbol.is_register and symbol in used_symbols:
                 symbols.append(symbol)
 
+        # names that share a register ('y = x' emits no move) keep it for as long
+        # as any of them is used
+        first_with_register = {}
+        for sym in symbols:
+            first = first_with_register.setdefault(sym.code_expr, sym)
+            if first is not sym:
+                a, b = first.lifetime, sym.lifetime
+                first._lifetime = range(min(a.start, b.start), max(a.stop, b.stop))
+
         assign_colors(symbols)
         for sym in symbols:
             if sym.code_expr in mapping:
